@@ -142,7 +142,7 @@ pub fn eval_on<B: Bk>(op: &Op, a: B, b: Option<B>) -> Vec<Val> {
         K::Var => vec![Val::vec(a.var(op.w as u8))],
         K::Std => vec![Val::vec(a.std(op.w as u8))],
         K::ScaleMut => {
-            let (mu, sd) = scale_args(if op.w == 0 { am.c } else { am.r });
+            let (mu, sd) = scale_args(if op.w == 0 { am.c } else { am.r }, op.x);
             let mut x = a;
             x.scale_mut(&mu, &sd, op.w as u8);
             vec![vm(&x)]
